@@ -225,9 +225,62 @@ def execute(cases_, tier, seed):
         elif base_tokens[c["key"]] != next(iter(distinct)):
             res.violations.append(Violation(c["key"], "hash-seed", "%s: seeded process output differs from the unseeded one" % c["id"], c, expected="identical",
                                             observed=_first_diff(base_tokens[c["key"]], next(iter(distinct))), features={"id": c["id"].split(":")[0]}))
+    # 3b: the front-ends in fresh processes under hash seeds: the real cargo-typify binary, and rustc expanding the real macro
+    # (its MacroSettings maps and the impls HashSet are filled by serde_tokenstream in hash order)
+    n_fe = 0
+    if len(cases_) > 1:
+        from . import C15
+        exe = C15.build_cli()
+        fe_seeds = 2 if tier == "quick" else 8
+        feats = C15.features("xrt")
+        fc = []
+        for combo in (("crate_digit", "crate_rename", "derive_pe_eq"), ("crate_digit_rename", "crate_ver", "map_btree"), ("patch", "replace_FrDiDe", "convert"),
+                      ("replace_none", "derive_path", "crate_any")):
+            c = {"schema": "xrt", "doc": C15.XRT, "features": list(combo), "builder": True}
+            c["id"] = "frontends:xrt{%s}" % ",".join(combo)
+            c["key"] = key_of(["C12fe", c["id"]])
+            fc.append(c)
+        fj = [{"id": c["key"], "settings": C15.merge_settings([{"struct_builder": True}] + [feats[fn][0] for fn in c["features"]]), "ops": [{"root": c["doc"]}],
+               "want": ["tokens"]} for c in fc]
+        fa = adapter.run_jobs(fj)
+        btok = {c["key"]: fa[c["key"]]["tokens"] for c in fc}
+        workdir = os.path.join(WORK, "c12_tmp")
+        os.makedirs(workdir, exist_ok=True)
+        outs = {}
+        for sd in range(fe_seeds):
+            env = {"LD_PRELOAD": LIBGR, "VERIF_HASH_SEED": str(sd)}
+            rc, text, err = C15.expand_macro(fc, {"xrt": feats}, btok, "c12seed", extra_env=env)
+            if rc != 0:
+                raise MachineryError("macro expansion under hash seed %d failed:\n%s" % (sd, err[-1500:]))
+            outs.setdefault("macro", {})[sd] = re.sub(r"// env .*", "", text)
+            n_fe += 1
+            old_env = dict(os.environ)
+            os.environ.update(env)
+            try:
+                for c in fc:
+                    if all(feats[fn][1] is not None for fn in c["features"]):
+                        r = C15.run_cli(exe, c, feats, workdir)
+                        outs.setdefault("cli:" + c["id"], {})[sd] = (r[0], r[1])
+                        n_fe += 1
+            finally:
+                os.environ.clear()
+                os.environ.update(old_env)
+        import shutil
+        shutil.rmtree(workdir, ignore_errors=True)
+        for what, per in outs.items():
+            res.transitions += len(per)
+            vals = {}
+            for sd, v in per.items():
+                vals.setdefault(json.dumps(v), []).append(sd)
+            if len(vals) > 1:
+                g = sorted(vals.values())
+                k = key_of(["C12fe", what])
+                res.violations.append(Violation(k, "hash-seed:front-end", "%s: output differs between hash seeds %d and %d" % (what, g[0][0], g[1][0]),
+                                                {"key": k, "family": "front-ends", "what": what}, expected="byte-identical output in every fresh process",
+                                                observed={"seeds": [g[0][0], g[1][0]]}, features={"id": what.split(":")[0]}))
     sites = audit()
     res.evaluations = res.transitions
-    res.extra.update({"text_variants": n_variants, "documents_with_capped_variants": n_capped, "hash_seed_runs": n_seed_runs, "hash_seeds": nseeds,
+    res.extra.update({"text_variants": n_variants, "documents_with_capped_variants": n_capped, "hash_seed_runs": n_seed_runs, "hash_seeds": nseeds, "front_end_seed_runs": n_fe,
                       "hash_seed_leg": "seed enumeration, not exhaustive over the key space; excluded from the exhaustive claim",
                       "hash_collection_sites_audit": sites})
     res.samples = [{"id": c["id"], "doc": c["doc"]} for c in cases_[:: max(1, len(cases_) // 4)]][:4]
